@@ -1,5 +1,191 @@
-From TT Require Import Lib.Base Model.Tfr Model.Concur Spec.C12 Spec.C13 Corr.C13 Proof.C13.
+(* C13 - concurrent suites run every test once, deliver every event, terminate.  PARTIAL: every
+   interleaving at the granularity of operations on the shared objects (Thread.start, queue.put/get,
+   Thread.join, semaphore.acquire/release, each call on the caller's result); preemption inside the
+   bytecode between two such operations is not in the model.  Only statements; every proof is
+   `exact <lemma of Proof/C13*.v>`.
 
-Theorem C13_stream_holds : forall i, spec_okb (IStream i) (model (IStream i)) = true.
-Proof. exact stream_meets_spec. Qed.
-Print Assumptions C13_stream_holds.
+   Throughout: i = an input of the classic suite (cinput: per sub-suite the calls its run(result) makes,
+   RRaise = run() raises there, and which of that worker's calls on the caller's result raise; where
+   make_tests raises; which queue.get() is interrupted; which of main's own stop() calls raise; whether
+   what is raised is an Exception) or of the stream suite (sinput); sched = ANY list of thread numbers
+   (0 = the caller of run(), w+1 = the worker of sub-suite w); creach i sched / sreach i sched = the
+   configuration after that schedule (an entry naming a blocked or finished thread is a no-op). *)
+From TT Require Import Lib.Base Model.Tfr Model.Concur Spec.C12 Spec.C13 Corr.C13 Proof.C12 Proof.C13 Proof.C13Classic Proof.C13Thms.
+
+(* The model meets the whole statement for every number of sub-suites, every script, every fault
+   placement and every schedule given to the harness scheduler (which then runs all threads to their end). *)
+Theorem C13_holds : forall i : input, spec_okb i (model i) = true.
+Proof. exact model_meets_spec. Qed.
+Print Assumptions C13_holds.
+
+(* ... and the executable statement implies the readable one (Spec.C13.Spec). *)
+Theorem C13_statement : forall i o, spec_okb i o = true -> Spec i o.
+Proof. exact spec_okb_sound. Qed.
+Print Assumptions C13_statement.
+
+(* the correspondence compares observations exactly *)
+Theorem C13_obs_eqb : forall a b, obs_eqb a b = true <-> a = b.
+Proof. exact obs_eqb_spec. Qed.
+Print Assumptions C13_obs_eqb.
+
+(* each_once: after ANY schedule the sub-suites started are 0, 1, ..., each once, never more than make_tests
+   yields; thread w+1's part of the caller's-result log is a run of sub-suite w's own thread and of nothing else *)
+Theorem C13_each_once : forall i sched, let c := creach i sched in
+  spawns (k_log c) = seq 0 (length (k_workers c))
+  /\ length (k_workers c) <= started (length (ci_suites i)) (ci_mt_raise i)
+  /\ forall w wk, nth_error (k_workers c) w = Some wk ->
+       exists s fl, nth_error (ci_suites i) w = Some (s, fl)
+         /\ tpath (init_thread s fl (worker_fb (ci_base i))) (proj (S w) (cg_log (k_log c))) (cw_th wk).
+Proof. exact classic_each_once. Qed.
+Print Assumptions C13_each_once.
+
+(* ... stream: what worker w has put on the queue so far plus what it has still to put is exactly
+   startTestRun, the events of sub-suite w (cut at a raise, then the broken-runner test), stopTestRun *)
+Theorem C13_each_once_stream : forall i sched, let c := sreach i sched in
+  spawns (s_log c) = seq 0 (length (s_workers c))
+  /\ length (s_workers c) <= started (length (si_suites i)) (si_mt_raise i)
+  /\ forall w todo, nth_error (s_workers c) w = Some todo ->
+       exists s, nth_error (si_suites i) w = Some s /\ fw w (putsq (s_log c)) ++ todo = worker_puts w (si_base i) s.
+Proof. exact stream_each_once. Qed.
+Print Assumptions C13_each_once_stream.
+
+(* returns_after_all: after ANY schedule, if run() has returned normally no worker was alive at that moment *)
+Theorem C13_returns_after_all : forall i sched, let c := creach i sched in
+  k_main c = CMDone -> k_raised c = false ->
+  length (k_live c) = started (length (ci_suites i)) (ci_mt_raise i) /\ forallb negb (k_live c) = true.
+Proof. exact classic_returns_after_all. Qed.
+Print Assumptions C13_returns_after_all.
+
+Theorem C13_returns_after_all_stream : forall i sched, let c := sreach i sched in
+  s_main c = SMDone -> s_raised c = false ->
+  length (s_live c) = started (length (si_suites i)) (si_mt_raise i) /\ forallb negb (s_live c) = true.
+Proof. exact stream_returns_after_all. Qed.
+Print Assumptions C13_returns_after_all_stream.
+
+(* delivery, classic: after ANY schedule worker w's part of the caller's-result log is a prefix of what w
+   does when it runs alone (ctrace: its script up to the first forwarder call that raises, then the
+   broken-runner fallback), all of it once w has finished: nothing lost, nothing twice, w's order *)
+Theorem C13_delivery : forall i sched w wk, let c := creach i sched in
+  nth_error (k_workers c) w = Some wk ->
+  exists s fl fbs rest, nth_error (ci_suites i) w = Some (s, fl) /\ worker_fb (ci_base i) = Some fbs
+     /\ proj (S w) (cg_log (k_log c)) ++ rest = ctrace fl PEnd s fbs fwd0 0
+     /\ (finished (cw_th wk) = true -> rest = []).
+Proof. exact classic_delivery. Qed.
+Print Assumptions C13_delivery.
+
+(* ... and the caller's result sees one test at a time (C12 corollary): after ANY schedule its log is a
+   sequence of complete single-owner sections acquire, calls, release, plus the holder's open section *)
+Theorem C13_one_at_a_time : forall i sched, let c := creach i sched in
+  let K := started (length (ci_suites i)) (ci_mt_raise i) in
+  exists secs tail, cg_log (k_log c) = flat_map render secs ++ tail
+     /\ Forall (sec_ok (S K)) secs /\ open_tail (S K) (k_sem c) tail.
+Proof. exact classic_one_at_a_time. Qed.
+Print Assumptions C13_one_at_a_time.
+
+(* delivery, stream: after ANY schedule what main has passed to the caller's result with route code w is a
+   prefix of what sub-suite w emits, event for event (own route code kept), each with a timestamp; all of it
+   when run() has returned normally *)
+Theorem C13_delivery_stream : forall i sched w s, let c := sreach i sched in
+  nth_error (si_suites i) w = Some s -> w < length (s_workers c) ->
+  (forall x, In x (delivered w (s_log c)) -> snd (fst x) = true)
+  /\ exists rest, map to3 (delivered w (s_log c)) ++ rest = ev_of (emits w (si_base i) s)
+       /\ (s_main c = SMDone -> s_raised c = false -> rest = []).
+Proof. exact stream_delivery. Qed.
+Print Assumptions C13_delivery_stream.
+
+(* broken_runner, classic: the log of a worker alone (caller's result not raising, well-formed reporting
+   before the raise) is the expected log of its tests; when run() raised an Exception it is followed by
+   exactly one errored broken-runner test; when it raised something else the thread just ends *)
+Theorem C13_broken_runner : forall s fbs, wf_script Out (fst (before_raise s)) = true ->
+  let pre := fst (before_raise s) in
+  (snd (before_raise s) = false -> ctrace [] PEnd s fbs fwd0 0 = expected [] pre sst0 0)
+  /\ (snd (before_raise s) = true -> ctrace [] PEnd s [] fwd0 0 = expected [] pre sst0 0)
+  /\ (snd (before_raise s) = true ->
+        exists body, ctrace [] PEnd s [br_script] fwd0 0 = expected [] pre sst0 0 ++ section body
+                     /\ BrokenRunnerBlock body).
+Proof. exact classic_worker_meaning. Qed.
+Print Assumptions C13_broken_runner.
+
+(* broken_runner, stream: a sub-suite whose run() raises an Exception emits its events so far and then the
+   broken-runner test (inprogress, fail); nothing more if it was not an Exception *)
+Theorem C13_broken_runner_stream : forall w pre rest, (forall x, In x pre -> x <> SRaise) ->
+  emits w false (pre ++ SRaise :: rest)
+    = emits w false pre ++ [QStatus w br_id st_inprogress None; QStatus w br_id st_fail None]
+  /\ emits w true (pre ++ SRaise :: rest) = emits w true pre.
+Proof. exact stream_broken_runner. Qed.
+Print Assumptions C13_broken_runner_stream.
+
+(* abort: after ANY schedule, once run() has ended: it raised iff make_tests raised, a queue.get() was
+   interrupted or the caller's result raised; if it raised, stop() was called on the process results of the
+   workers started and not yet joined (cU), in order - all of them unless a stop() of the caller's result
+   itself raised, then up to and including that one; otherwise on none.  (The abort path does not join.) *)
+Theorem C13_abort : forall i sched, let c := creach i sched in k_main c = CMDone ->
+  k_raised c = craise_exp i (k_log c)
+  /\ (k_raised c = true -> k_stops c = firstn (stops_expected (main_stops (k_log c)) (length (cU i c))) (cU i c))
+  /\ (k_raised c = false -> k_stops c = []).
+Proof. exact classic_abort. Qed.
+Print Assumptions C13_abort.
+
+Theorem C13_abort_stream : forall i sched, let c := sreach i sched in s_main c = SMDone ->
+  s_raised c = raise_expected i (s_log c)
+  /\ s_stops c = (if s_raised c
+                  then unreaped_of (started (length (si_suites i)) (si_mt_raise i)) (joins (s_log c)) else []).
+Proof. exact stream_abort. Qed.
+Print Assumptions C13_abort_stream.
+
+(* terminates: no reachable configuration is deadlocked (while main or a worker is unfinished somebody can
+   move), every move decreases a natural-number measure, and the harness scheduler's run is one of the
+   schedules and ends with everything finished and the semaphore free *)
+Theorem C13_no_deadlock : forall i sched, let c := creach i sched in
+  call_done c = false -> exists t, t < cnthr c /\ cstep i c t <> None.
+Proof. exact classic_no_deadlock. Qed.
+Print Assumptions C13_no_deadlock.
+
+Theorem C13_no_deadlock_stream : forall i sched, let c := sreach i sched in
+  sall_done c = false -> exists t, t < snthr c /\ sstep i c t <> None.
+Proof. exact stream_no_deadlock. Qed.
+Print Assumptions C13_no_deadlock_stream.
+
+Theorem C13_progress : forall i c t c', cstep i c t = Some c' -> cmeas i c' < cmeas i c.
+Proof. exact cstep_measure. Qed.
+Print Assumptions C13_progress.
+
+Theorem C13_progress_stream : forall i c t c', sstep i c t = Some c' -> smeasure i c' < smeasure i c.
+Proof. exact sstep_measure. Qed.
+Print Assumptions C13_progress_stream.
+
+Theorem C13_terminates : forall i,
+  call_done (crun i) = true /\ k_sem (crun i) = None /\ exists s, crun i = creach i s.
+Proof. exact classic_terminates. Qed.
+Print Assumptions C13_terminates.
+
+Theorem C13_terminates_stream : forall i, sall_done (srun i) = true /\ exists s, srun i = sreach i s.
+Proof. exact stream_terminates. Qed.
+Print Assumptions C13_terminates_stream.
+
+(* non-vacuity: (1) classic, two sub-suites, the second one's run() raises: its worker reports the
+   broken-runner error, run() returns with nobody alive; (2) stream, the caller's result raises at its third
+   event (the broken-runner 'inprogress' of worker 1): run() raises, both unreaped workers are told to stop;
+   (3) classic, the first queue.get() is interrupted: stop() is called for both workers *)
+Example C13_example :
+  let ci := {| ci_suites := [([RStartTest 1; ROutcome KSuccess 1; RStopTest 1], []); ([RStartTest 2; RRaise], [])];
+               ci_mt_raise := None; ci_get_intr := None; ci_main_faults := []; ci_base := false;
+               ci_sched := [1; 2; 2; 1; 0; 2] |} in
+  let o := model (IClassic ci) in
+  let si := {| si_suites := [[SEv 1 0 None; SEv 1 1 None]; [SEv 2 0 (Some 1); SRaise]]; si_mt_raise := None;
+               si_get_intr := None; si_main_faults := [2]; si_base := false;
+               si_sched := [0; 0; 1; 2; 0; 0; 1; 2; 0; 0; 2; 2] |} in
+  let o2 := model (IStream si) in
+  let ci3 := {| ci_suites := [([RStartTest 1; ROutcome KSuccess 1; RStopTest 1], []);
+                              ([RStartTest 2; ROutcome KFailure 2; RStopTest 2], [])];
+                ci_mt_raise := None; ci_get_intr := Some 0; ci_main_faults := []; ci_base := true;
+                ci_sched := [0; 0; 0; 1; 1] |} in
+  let o3 := model (IClassic ci3) in
+  (o_raised o, o_deadlock o, o_live o, o_stops o, spawns (o_trace o), joins (o_trace o))
+    = (false, false, [false; false], [], [0; 1], [0; 1])
+  /\ outcomes_of_log (proj 1 (cg_log (o_trace o))) = [(KSuccess, 1)]
+  /\ outcomes_of_log (proj 2 (cg_log (o_trace o))) = [(KError, br_id)]
+  /\ (o_raised o2, o_deadlock o2, o_stops o2) = (true, false, [0; 1])
+  /\ delivered 1 (o_trace o2) = [(2, 0, Some 1, true, false); (br_id, 0, None, true, true)]
+  /\ (o_raised o3, o_deadlock o3, o_stops o3, main_stops (o_trace o3)) = (true, false, [0; 1], [false; false]).
+Proof. vm_compute. repeat split. Qed.
